@@ -29,6 +29,11 @@ type cs struct {
 	OT     string        `json:"ot"`
 	Regime string        `json:"regime"` // all | chunk:N | cut:DIR:K
 	Seed   uint64        `json:"seed"`
+	// schedule exploration: P > 0 explores every schedule of the session with <= P preemptions and F-1 non-default
+	// free switches; Prefix replays one schedule
+	P      int   `json:"p,omitempty"`
+	F      int   `json:"f,omitempty"`
+	Prefix []int `json:"prefix,omitempty"`
 }
 
 var progCache = map[string]*circuit.Circuit{}
@@ -75,7 +80,37 @@ func desc(k cs) string {
 	return strings.ReplaceAll(strings.TrimPrefix(k.Src, "package main\n"), "\n", " ")
 }
 
+// runSchedules explores the schedules of one session (the parties' threads and their connections' writer
+// goroutines) within the bounds and judges every execution with the session oracle.
+func runSchedules(ctx *runner.Ctx, k cs, c *circuit.Circuit) {
+	gin, _ := new(big.Int).SetString(k.G, 10)
+	ein, _ := new(big.Int).SetString(k.E, 10)
+	execs, trans, cut := sess.ExploreCircuit(c, gin, ein, sess.Opts{OT: k.OT, Seed: k.Seed}, k.P, k.F, ctx.Expired, func(r *sess.Result) bool {
+		ctx.Eval(1)
+		kk := k
+		kk.P, kk.F = 0, 0
+		kk.Prefix = append([]int{}, r.Choices...)
+		return judge(ctx, kk, c, gin, ein, r, "schedule")
+	})
+	ctx.Count("schedule_executions", execs)
+	ctx.Count("schedule_transitions", trans)
+	if cut {
+		ctx.Incomplete("schedule exploration of a session was cut by the deadline")
+	} else {
+		ctx.Nontrivial(fmt.Sprintf("schedules|%s|%s|%s|%s|P%d", desc(k), k.G, k.E, k.OT, k.P))
+	}
+}
+
 func runCase(ctx *runner.Ctx, k cs) *sess.Result {
+	if k.P > 0 {
+		c, err := build(k)
+		if err != nil {
+			ctx.Outcome("compile-error")
+			return nil
+		}
+		runSchedules(ctx, k, c)
+		return nil
+	}
 	ctx.Eval(1)
 	c, err := build(k)
 	if err != nil {
@@ -85,21 +120,33 @@ func runCase(ctx *runner.Ctx, k cs) *sess.Result {
 	}
 	gin, _ := new(big.Int).SetString(k.G, 10)
 	ein, _ := new(big.Int).SetString(k.E, 10)
-	r := sess.RunCircuit(c, gin, ein, sess.Opts{OT: k.OT, Seed: k.Seed, Regime: regime(k.Regime)})
-	site := k.OT + "." + strings.SplitN(k.Regime, ":", 2)[0]
+	r := sess.RunCircuit(c, gin, ein, sess.Opts{OT: k.OT, Seed: k.Seed, Regime: regime(k.Regime), Prefix: k.Prefix})
+	site := strings.SplitN(k.Regime, ":", 2)[0]
+	if k.Prefix != nil {
+		site = "schedule"
+	}
+	judge(ctx, k, c, gin, ein, r, site)
+	return r
+}
+
+// judge applies the session oracle to one execution; it returns false after a violation.
+func judge(ctx *runner.Ctx, k cs, c *circuit.Circuit, gin, ein *big.Int, r *sess.Result, site string) bool {
+	site = k.OT + "." + site
+	ok := true
 	fail := func(kind, what string) {
-		ctx.Violate(kind+"."+site, fmt.Sprintf("%s :: %s g=%s e=%s ot=%s regime=%s", what, desc(k), k.G, k.E, k.OT, k.Regime), k)
+		ok = false
+		ctx.Violate(kind+"."+site, fmt.Sprintf("%s :: %s g=%s e=%s ot=%s regime=%s schedule=%v", what, desc(k), k.G, k.E, k.OT, k.Regime, nonzero(k.Prefix)), k)
 	}
 	if r.Outcome != "ok" {
 		if r.Outcome == "stuck" {
 			panic("harness: " + r.Detail)
 		}
 		fail("no-termination", fmt.Sprintf("session %s: %s (garbler err=%v evaluator err=%v)", r.Outcome, first(r.Detail), r.GErr, r.EErr))
-		return r
+		return ok
 	}
 	if r.GErr != nil || r.EErr != nil {
 		fail("error", fmt.Sprintf("honest session failed: garbler=%v evaluator=%v", r.GErr, r.EErr))
-		return r
+		return ok
 	}
 	// reference: plain evaluation of (garbler input, evaluator input)
 	n0 := int(c.Inputs[0].Type.Bits)
@@ -118,16 +165,27 @@ func runCase(ctx *runner.Ctx, k cs) *sess.Result {
 	want := bitsim.Outputs(c, wires)
 	if len(r.GOut) != len(want) || len(r.EOut) != len(want) {
 		fail("arity", fmt.Sprintf("garbler returned %d values, evaluator %d, circuit declares %d outputs", len(r.GOut), len(r.EOut), len(want)))
-		return r
+		return ok
 	}
 	for i := range want {
 		if r.GOut[i].Cmp(want[i]) != 0 || r.EOut[i].Cmp(want[i]) != 0 {
 			fail("value", fmt.Sprintf("output %d: garbler=%s evaluator=%s plain evaluation=%s", i, r.GOut[i], r.EOut[i], want[i]))
-			return r
+			return ok
 		}
 	}
 	ctx.Outcome("ok/" + k.OT)
 	ctx.Nontrivial(fmt.Sprintf("%s|%s|%s|%s|%s", desc(k), k.G, k.E, k.OT, k.Regime))
+	return ok
+}
+
+// nonzero lists the positions of the non-default scheduler choices.
+func nonzero(p []int) []string {
+	var r []string
+	for i, c := range p {
+		if c != 0 {
+			r = append(r, fmt.Sprintf("%d:%d", i, c))
+		}
+	}
 	return r
 }
 
@@ -400,6 +458,26 @@ func work(ctx *runner.Ctx) {
 			continue
 		}
 		cases = append(cases, cs{Src: bigp, G: "115792089237316195423570985008687907853269984665640564039457584007913129639935", E: "98765432109876543210987654321098765432109876543210", OT: o, Regime: "all", Seed: seed})
+	}
+	// (i) schedules: every interleaving of the two parties and their connections' writer goroutines with one
+	// preemption (thorough: two for the smallest session) and one non-default free switch, ideal OT (thorough: CO too)
+	{
+		sched := []cs{
+			{Circ: &circgen.Desc{In: []int{1, 1}, Out: []int{1}, Gates: []circgen.G{{2, 0, 1}}}, G: "1", E: "1"},
+			{Circ: &circgen.Desc{In: []int{2, 3}, Out: []int{1, 2}, Gates: []circgen.G{{2, 0, 2}, {3, 1, 3}, {4, 4, 0}, {0, 5, 6}, {1, 7, 4}, {2, 8, 1}}}, G: "2", E: "5"},
+		}
+		for si, k := range sched {
+			k.OT, k.Regime, k.Seed, k.P, k.F = "ideal", "all", seed, 1, 2
+			cases = append(cases, k)
+			if !quick {
+				k.OT = "co"
+				cases = append(cases, k)
+				if si == 0 {
+					k.OT, k.P = "ideal", 2
+					cases = append(cases, k)
+				}
+			}
+		}
 	}
 	ctx.Note(fmt.Sprintf("case list: %d sessions", len(cases)))
 	for i, k := range cases {
